@@ -329,6 +329,18 @@ class Exec:
                         n = model.eval(ent[2], model_completion=True).as_long()
                         opens.append([model.eval(z3.Select(ent[1], bv64(i)), model_completion=True).as_long() for i in range(min(n, 4096))])
                 out['#' + logname] = opens
+            if 'ideal_ops' in p.ghost:
+                # ideal-AEAD run: outcome and plaintext of every open, in call order (script for the native replay)
+                opens = []
+                for op in p.ghost['ideal_ops']:
+                    if op[0] == 'open':
+                        a, o, l = op[1].pt
+                        n = model.eval(l, model_completion=True).as_long()
+                        off = model.eval(o, model_completion=True).as_long()
+                        opens.append([model.eval(z3.Select(a, bv64(off + i)), model_completion=True).as_long() for i in range(min(n, 70000))])
+                    elif op[0] == 'open-fail':
+                        opens.append(None)
+                out['#opens'] = opens
             for k, v in p.ghost.items():
                 if k.startswith('in:'):
                     try:
